@@ -616,9 +616,10 @@ func TestC06CrashPoints(t *testing.T) {
 // ---------------------------------------------------------------- torn clock files
 
 type tornCase struct {
-	Start   uint64 `json:"start"`   // value stored before the interrupted update
-	Witness uint64 `json:"witness"` // 0 = the interrupted update is an Increment, else Witness(value)
-	Budget  int    `json:"budget"`  // replay: a single crash point (-1 = enumerate all)
+	Start   uint64 `json:"start"`           // value stored before the interrupted update
+	Witness uint64 `json:"witness"`         // 0 = the interrupted update is an Increment, else Witness(value)
+	Budget  int    `json:"budget"`          // replay: a single crash point (-1 = enumerate all)
+	Fresh   bool   `json:"fresh,omitempty"` // the clock file does not exist yet: the interrupted update is its very first write
 }
 
 func genTorn(t *rapid.T) tornCase {
@@ -629,6 +630,9 @@ func genTorn(t *rapid.T) tornCase {
 	).Draw(t, "start")
 	if rapid.Bool().Draw(t, "witness") {
 		c.Witness = c.Start + rapid.Uint64Range(1, 100000).Draw(t, "delta")
+	}
+	if rapid.IntRange(0, 3).Draw(t, "fresh") == 0 {
+		c.Fresh, c.Start = true, 0 // the first bug of a repository, or clocks being rebuilt after a clone
 	}
 	return c
 }
@@ -647,6 +651,9 @@ func runTorn(tb report.TB, rep *report.Reporter, c tornCase) {
 
 	prepare := func() {
 		_ = os.RemoveAll(filepath.Join(store, "clocks"))
+		if c.Fresh {
+			return
+		}
 		clean := osfs.New(store)
 		cl, err := lamport.NewPersistedClock(clean, path)
 		if err != nil {
@@ -657,7 +664,13 @@ func runTorn(tb report.TB, rep *report.Reporter, c tornCase) {
 		}
 	}
 	update := func(fs billy.Filesystem) (lamport.Time, error) {
-		cl, err := lamport.LoadPersistedClock(fs, path)
+		var cl *lamport.PersistedClock
+		var err error
+		if c.Fresh {
+			cl, err = lamport.NewPersistedClock(fs, path) // what the repository does for a clock it does not have yet
+		} else {
+			cl, err = lamport.LoadPersistedClock(fs, path)
+		}
 		if err != nil {
 			return 0, err
 		}
@@ -687,7 +700,7 @@ func runTorn(tb report.TB, rep *report.Reporter, c tornCase) {
 		kc := c
 		kc.Budget = b
 		digits := fmt.Sprintf("%d->%d", len(fmt.Sprint(c.Start)), len(fmt.Sprint(uint64(newVal))))
-		rep.Case(fmt.Sprintf("torn|%s|b=%d|w=%v", digits, b, c.Witness != 0), b > 0, []string{"digits:" + digits}, kc)
+		rep.Case(fmt.Sprintf("torn|%s|b=%d|w=%v|fresh=%v", digits, b, c.Witness != 0, c.Fresh), b > 0, []string{"digits:" + digits, fmt.Sprintf("first-write-of-the-clock-file:%v", c.Fresh)}, kc)
 		fail := func(sig, detail string) bool {
 			return rep.Fail(tb, "C06/torn-clock/"+sig, fmt.Sprintf("clock at %d, update to %d interrupted after %d of %d units of file-system work (%v)\n%s", c.Start, newVal, b, total, ffs.Log, detail), kc)
 		}
